@@ -13,14 +13,14 @@ from vlib.runner import Violation, sut
 ID = "C20"
 RULE = (
     "case = default TOML tree (tables nested up to 3 deep over a small key pool; scalar ints/floats/bools/strings with #, =, quotes, brackets, non-ASCII; "
-    "one-line arrays) rendered by the harness's own writer with comment and blank lines, x a user tree derived from it (each key dropped/kept/changed incl. "
+    "one-line arrays; with an existing user file also multi-line strings whose lines look like comments, headers or assignments) rendered by the harness's own writer with comment and blank lines, x a user tree derived from it (each key dropped/kept/changed incl. "
     "scalar type changes and, rarely, a table replaced by a plain value or a plain value by a (possibly empty) table, plus user-only keys and tables) x file exists | file absent; table sections may be written in any order (e.g. [server.tls], [ui], [server]) and leaf tables as one-line inline tables; the user may edit the file between two loads. Both texts are first checked with tomllib against the generated trees. "
     "Oracle: reference overlay on plain dicts (user wins at leaves, recurse on tables, keep both sides' private keys); file bytes unchanged when it existed; when absent: "
     "first load == defaults and creates a file, two further loads == defaults with file bytes unchanged, created file parses as TOML. "
     "Non-trivial = overlap at depth >= 2 with both a changed and an untouched sibling, or the absent-file path with a nested table."
 )
 ASSUMPTIONS = [
-    "no arrays of tables or multi-line values (outside the property's stated domain / one-line proviso)",
+    "no arrays of tables; multi-line strings only when the user's file exists (the generated-file clause is limited to one-line values)",
     "tomllib (stdlib) is the second TOML reader validating the harness's writer",
     "tomlkit's parser is trusted: documents that tomlkit itself refuses to parse (some valid out-of-order table headers) are set aside and counted",
     "the config directory is redirected with XDG_CONFIG_HOME to a per-process scratch directory",
@@ -31,6 +31,11 @@ TABLES = ["server", "client", "t", "u"]
 STRS = ["", "x", "hello world", "a#b", "a = b", 'q"uote', "[x]", "back\\slash", "ünï", "日本", "#lead", "tab\there", "'single'", "a,b", "{}",
         # one-line TOML strings may contain these separators raw; str.splitlines() would break the line there
         "{app}\u2028[{title}]", "a\x85[b]", "x\u2029y", "\x0b[v]"[1:], "fs\x1c"[:2]]
+
+
+# multi-line strings (only with an existing user file: the generated-file clause is limited to one-line values). Their lines may look
+# like comments, table headers or assignments; they are none of these
+ML = ["line one\n# not a comment\nline three", "\n#x", "a\n   # indented\nb\n", "x\n[fake.table]\ny = 1", "two\n\nblank", "{app}\n  #{title}"]
 
 
 def budget(tier):
@@ -44,6 +49,7 @@ def _scalar():
         st.sampled_from([0.5, -1.25, 3.0, 1e10, 1e-7, 6.02e23]),
         st.booleans(),
         st.sampled_from(STRS),
+        st.sampled_from(STRS + ML),
         st.lists(st.one_of(st.integers(-3, 3), st.sampled_from(STRS)), max_size=3),
     )
 
@@ -89,14 +95,25 @@ def _derive(draw, base, depth):
     return u
 
 
+def _one_line(t):
+    if isinstance(t, dict):
+        return {k: _one_line(v) for k, v in t.items()}
+    if isinstance(t, str):
+        return t.replace("\n", " ")
+    return t
+
+
 @st.composite
 def strategy(draw, tier="quick"):
     d = draw(_tree(3))
     u = draw(_derive(d, 3))
+    exists = draw(st.sampled_from([True, True, False]))
+    if not exists:
+        d, u = _one_line(d), _one_line(u)
     return {
         "default": d,
         "user": u,
-        "exists": draw(st.sampled_from([True, True, False])),
+        "exists": exists,
         "comments": draw(st.lists(st.integers(0, 40), max_size=4)),
         "ucomments": draw(st.lists(st.integers(0, 40), max_size=3)),
         "user2": draw(st.one_of(st.none(), _derive(d, 3))),  # the user edits the file between two loads
@@ -112,6 +129,9 @@ def strategy(draw, tier="quick"):
 
 
 def _s(v):
+    if "\n" in v:  # multi-line basic string; the newline right after the opening quotes is not part of the value
+        body = "".join("\\\\" if ch == "\\" else '\\"' if ch == '"' else ch if ch == "\n" or (ord(ch) >= 32 and ord(ch) != 127) else "\\u%04x" % ord(ch) for ch in v)
+        return '"""\n' + body + '"""'
     out = '"'
     for ch in v:
         if ch == '"':
@@ -160,7 +180,7 @@ def render(tree, comments=(), order=(), inline=0):
                 if is_leaf:
                     i = leaf_no[0]
                     leaf_no[0] += 1
-                    if (inline >> i) & 1:
+                    if (inline >> i) & 1 and not any(isinstance(x, str) and "\n" in x for x in v.values()):
                         mine.append(f"{k} = {{ " + ", ".join(f"{kk} = {_v(vv)}" for kk, vv in v.items()) + " }" if v else f"{k} = {{}}")
                         continue
                 emit(v, path + [k])
